@@ -290,10 +290,10 @@ def answer (xs : List Sexp) : String :=
     | some s => "ok " ++ showIdlTy (typeToIdl s)
     | none => "bad-op"
   -- field names of a struct type: the model's answer is the declaration order carried by the op
-  | [.atom "fields", .atom _, .list ns] =>
-    match atoms ns with
-    | some ns => "ok " ++ (if ns.isEmpty then "-" else " ".intercalate ns)
-    | none => "bad-op"
+  | [.atom "fields", .atom _, .atom k, .list ns] =>
+    match atoms ns, parseNat k with
+    | some ns, some k => "ok " ++ (if (ns.take k).isEmpty then "-" else " ".intercalate (ns.take k))
+    | _, _ => "bad-op"
   -- bytes the serializer writes
   | [.atom "enc", .atom _, sh, v] =>
     match parseShape sh, parseVal v with
